@@ -158,9 +158,10 @@ def run(ctx):
     for i in range(ctx.budget(40, 600)):
         rng = ctx.case_rng('G-sim-relabel', i)
         recipe = S.gen_sim(rng, algo=rng.choice(['naive', 'starter', 'overbook']), gen='G-sim-relabel')
-        recipe['relabel'] = 1
+        recipe['relabel'] = 1 + i % 2      # 2: the assignments are also flagged is_resume
         run_ = S.SimRun(recipe).run()
         st['relabel_runs'] += 1
+        st['relabel_runs_flagged_is_resume'] += recipe['relabel'] == 2
         st['relabel_runs_with_completions'] += any(d['finished'] for d in run_.ticks)
         for desc in monitor(run_):
             out['hits'].append(dict(desc=desc, signature='recount', recipe=recipe, gen='G-sim-relabel'))
